@@ -35,13 +35,14 @@ From NQ Require Import Proofs.SdkTopProofs.
 From NQ Require Lang.Asm Lang.AsmSemQ Proofs.AsmProofs Proofs.AsmQProofs Proofs.AsmQMachine.
 From NQ Require Exec.State Exec.Sem Exec.SemQ.
 From NQ Require Proofs.Bridge_AsmQ Proofs.Bridge_AsmQLog Proofs.Bridge_SdkAsm Proofs.Bridge_E2E Proofs.Bridge_E2E_H1.
-From NQ Require Base.Bits Lang.Codec Lang.CodecCheck Proofs.WireBridge Proofs.Bridge_E2E_Wire.
+From NQ Require Base.Bits Lang.Codec Lang.CodecCheck Proofs.WireBridge Proofs.Bridge_E2E_Wire Proofs.Bridge_E2E_WireTotal.
 From Gen Require Gen_Asm Gen_Codec.
 Import ListNotations.
 
 Module E2E := NQ.Proofs.Bridge_E2E.
 Module H1 := NQ.Proofs.Bridge_E2E_H1.
 Module W := NQ.Proofs.Bridge_E2E_Wire.
+Module WT := NQ.Proofs.Bridge_E2E_WireTotal.
 Local Open Scope Z_scope.
 
 (* the regenerated parameters satisfy C03's side conditions *)
@@ -109,6 +110,39 @@ Proof.
   destruct C05_e2e_params_ok as (Hp & Hq & Hb). destruct C05_e2e_codec_ok as (Hh & Ht).
   exact (W.sdk_end_to_end_wire Gen_Asm.gen_params Gen_Codec.gen_vanilla Gen_Codec.gen_header cap v0 v1 app
            segs script e bs stL bl Hp Hq Hb Hh Ht Hw Hev Hl Hcap Hwire).
+Qed.
+
+(* the premise "bytes were produced" reduced, with builder-asm's AsmBuildTotal.assemble_total
+   (build is total on machine form when the table covers the mnemonics) and
+   WireRange.assemble_encodes (the encoder accepts when the source values fit): what remains is
+   P1, P2 and the C16 premise "the values fit the binary format"
+     (WT.blocks_fit: per block WireRange.src_fits -- every register index, immediate, address of
+      the source fits its field -- and fewer than 2^31 assembled instructions; decidable),
+   and the header values fit.  The regenerated vanilla table covers every mnemonic the lowering
+   can emit and has the standard field kinds (WT.table_ok, by vm_compute). *)
+Theorem C05_e2e_table_ok : WT.table_ok Gen_Codec.gen_vanilla = true /\ (Asm.ap_nreg Gen_Asm.gen_params <= 16)%nat.
+Proof. split; [vm_compute; reflexivity|apply Nat.leb_le; vm_compute; reflexivity]. Qed.
+
+Theorem C05_end_to_end_wire_total : forall cap v0 v1 app segs script e bs stL,
+  Forall (fun seg => bwfs seg = true) segs ->
+  eval_prog (prog_of segs) script = Some e ->
+  lower_prog true (prog_of segs) = Ok (bs, stL) ->
+  (qpeak segs <= cap)%nat ->                                               (* P1 *)
+  H1.blocks_scratch_ok Gen_Asm.gen_params bs = true ->                     (* P2 *)
+  WT.blocks_fit Gen_Asm.gen_params Gen_Codec.gen_vanilla bs = true ->      (* C16: the values fit *)
+  Bits.fits_all (Codec.h_layout Gen_Codec.gen_header) [v0; v1; app] = true ->
+  exists bl qps fuel s,
+    W.wire_blocks Gen_Asm.gen_params Gen_Codec.gen_vanilla Gen_Codec.gen_header v0 v1 app bs = Some bl /\
+    W.unwire_blocks Gen_Codec.gen_vanilla Gen_Codec.gen_header bl = Some qps /\
+    E2E.qrun_blocks fuel qps (SemQ.mkQ (State.init_state cap) script []) = (s, State.Halt) /\
+    Bridge_SdkAsm.inst_trace (SemQ.q_trace s) = e_trace e /\
+    (forall a, State.find Z.eqb (Z.of_nat a) (State.arrs (SemQ.q_st s)) = alookup a (e_arr e)).
+Proof.
+  intros cap v0 v1 app segs script e bs stL Hw Hev Hl Hcap Hs Hf Hh.
+  destruct C05_e2e_params_ok as (Hp & Hq & Hb). destruct C05_e2e_codec_ok as (Hho & Ht).
+  destruct C05_e2e_table_ok as (Htab & Hn).
+  exact (WT.sdk_end_to_end_wire_total Gen_Asm.gen_params Gen_Codec.gen_vanilla Gen_Codec.gen_header cap v0 v1 app
+           segs script e bs stL Hp Hq Hn Hb Hho Ht Htab Hh Hw Hev Hl Hcap Hs Hf).
 Qed.
 
 (* the intermediate forms (kept): given the compiled blocks explicitly, no scratch premise *)
@@ -221,6 +255,8 @@ Example C05_end_to_end_wire_nonvacuous :
   exists e bs stL,
     eval_prog (prog_of ex_segs) ex_script = Some e /\
     lower_prog true (prog_of ex_segs) = Ok (bs, stL) /\
+    WT.blocks_fit ex_pr Gen_Codec.gen_vanilla bs = true /\
+    Bits.fits_all (Codec.h_layout Gen_Codec.gen_header) [1; 0; 0] = true /\
     match W.wire_blocks ex_pr Gen_Codec.gen_vanilla Gen_Codec.gen_header 1 0 0 bs with
     | Some bl =>
         List.length bl = 2%nat /\ forallb (fun b => Nat.leb 100 (List.length b)) bl = true /\
@@ -244,6 +280,7 @@ Qed.
 
 Print Assumptions C05_end_to_end.
 Print Assumptions C05_end_to_end_wire.
+Print Assumptions C05_end_to_end_wire_total.
 Print Assumptions C05_end_to_end_params.
 Print Assumptions C05_end_to_end_compiled.
 Print Assumptions C04B_asmq_halting.
